@@ -5,6 +5,8 @@ import GV.Spec.Num
 import GV.Proofs.Num
 import GV.Proofs.Num64
 import GV.Proofs.NumBits
+import GV.Proofs.Shift64
+import GV.Proofs.Div64
 
 /-!
   GV.Props.C06 — fixed-width integer arithmetic is exact.
@@ -715,13 +717,94 @@ theorem mul64_scheme (s : Bool) (x y : W64) (hx : Canon s x) (hy : Canon s y) :
   simp only [scheme64Bin, Option.map, (mul64_correct s x y hx hy).1]
 
 
-/-- FULL-STRENGTH statements for the remaining 64-bit helpers (NOT claimed unless proved below) -/
+/-! ### 64-bit shifts: `$shiftLeft64`, `$shiftRightInt64`, `$shiftRightUint64` for EVERY count -/
+
+/-- `shift64_correct`: the three shift helpers (numeric.js:37-77) equal the `BitVec 64` shifts for every canonical operand and
+    every non-negative count (0, < 32, < 64, ≥ 64; a 64-bit count arrives through `$flatten64`), and return canonical pairs -/
+theorem shift64_correct (s : Bool) (op : ShOp) (x : W64) (n : Nat) (hx : Canon s x) :
+    toBV (scheme64Shift s op x n) = specShift s op (toBV x) n ∧ Canon s (scheme64Shift s op x n) := by
+  constructor
+  · cases op
+    · exact GV.Proofs.Shift64.shl64_correct s x hx n
+    · cases s
+      · simp only [scheme64Shift, specShift, Bool.false_eq_true, if_false]
+        exact GV.Proofs.Shift64.shrU64_correct x hx n
+      · simp only [scheme64Shift, specShift, if_true]
+        exact GV.Proofs.Shift64.shrS64_correct x hx n
+  · cases op
+    · simp only [scheme64Shift, shiftLeft64]
+      repeat' split
+      all_goals first | exact hx | exact mk64_canon s _ _
+    · cases s
+      · simp only [scheme64Shift, shiftRightUint64, Bool.false_eq_true, if_false]
+        repeat' split
+        all_goals first | exact hx | exact mk64_canon false _ _
+      · simp only [scheme64Shift, shiftRightInt64, if_true]
+        repeat' split
+        all_goals first | exact hx | exact mk64_canon true _ _
+
+/-! ### `$div64`: what is proved, and what is not -/
+
+theorem toBV_eq_zero (s : Bool) (y : W64) (hy : Canon s y) : toBV y = 0 ↔ (y.high = 0 ∧ y.low = 0) := by
+  constructor
+  · intro h
+    have hv := valOf_toBV s y hy
+    rw [h] at hv
+    have h0 : valOf s (0 : BitVec 64) = 0 := by cases s <;> simp [valOf]
+    rw [h0] at hv
+    cases s <;> simp only [Canon, if_true, if_false, Bool.false_eq_true] at hy <;> unfold flatten64 at hv <;> omega
+  · intro h
+    simp only [toBV, flatten64, h.1, h.2]; rfl
+
+/-- `$div64` throws "integer divide by zero" exactly when the specification panics -/
+theorem div64_panic_iff (s : Bool) (x y : W64) (r : Bool) (hy : Canon s y) :
+    div64 s x y r = none ↔ specBin s (if r then .rem else .quo) (toBV x) (toBV y) = none := by
+  have hz := toBV_eq_zero s y hy
+  by_cases h0 : y.high = 0 ∧ y.low = 0
+  · have hb : toBV y = 0 := hz.2 h0
+    cases r <;> simp [div64, h0, specBin, hb]
+  · have hb : ¬ toBV y = 0 := fun h => h0 (hz.1 h)
+    have hd : div64 s x y r ≠ none := by
+      unfold div64; rw [if_neg h0]; simp only []; split <;> simp
+    cases r <;> simp [hd, specBin] <;> exact hb
+
+/-- every result of `$div64` is a canonical pair -/
+theorem div64_canon (s : Bool) (x y : W64) (r : Bool) (z : W64) (h : div64 s x y r = some z) : Canon s z := by
+  unfold div64 at h
+  split at h
+  · cases h
+  · simp only [] at h
+    split at h <;> (cases h; exact mk64_canon s _ _)
+
+/-- termination of the first loop of `$div64` (numeric.js:148-152): on the magnitude of any canonical non-zero divisor the
+    loop stops by itself — the model's 64 units of fuel are never used up. (The second loop runs exactly n+1 times by
+    construction.) -/
+theorem div64_norm_terminates (s : Bool) (y : W64) (hy : Canon s y) (hy0 : ¬ (y.high = 0 ∧ y.low = 0)) (xh xl : Int) :
+    let yneg : Bool := decide (y.high < 0)
+    let yHigh0 := if yneg then -y.high else y.high
+    let yHigh := if yneg ∧ y.low ≠ 0 then yHigh0 - 1 else yHigh0
+    let yLow := if yneg ∧ y.low ≠ 0 then 4294967296 - y.low else y.low
+    0 < (div64Norm 64 xh xl yHigh yLow 0).2.2.2 := by
+  intro yneg yHigh0 yHigh yLow
+  have hl := hy.2
+  have hh : -2147483648 ≤ y.high ∧ y.high < 4294967296 := by
+    cases s <;> simp only [Canon, if_true, if_false, Bool.false_eq_true] at hy <;> omega
+  apply GV.Proofs.Div64.div64Norm_fuel 64 xh xl yHigh yLow 0 (by omega)
+  · simp only [yHigh, yHigh0, yneg, yLow, decide_eq_true_eq]; repeat' split
+    all_goals omega
+  · simp only [yLow, yneg, decide_eq_true_eq]; repeat' split
+    all_goals omega
+  · simp only [yHigh, yHigh0, yneg, yLow, decide_eq_true_eq, Nat.sub_self, Int.pow_zero]; repeat' split
+    all_goals omega
+
+/-- FULL-STRENGTH statement for the quotient/remainder values of `$div64` — NOT claimed, NOT proved. Proved above: the panic
+    condition (`div64_panic_iff`), canonical results (`div64_canon`), termination of the normalisation loop
+    (`div64_norm_terminates`, with the doubling step `GV.Proofs.Div64.norm_step`). Missing: the invariant of the second loop
+    (numeric.js:154-171): after i iterations `|x| = q_i * (2 * y_i) + x_i` with `x_i < 2 * y_i`, `y_i = |y| * 2^(n-i)`, and the
+    sign reconstruction `high * s`, `xHigh * rs`. The values are covered by the helper tie (all grid pairs incl. MIN / -1,
+    random and carry patterns; both signednesses; quotient and remainder) against this `BitVec` specification. -/
 def div64_correct_full : Prop :=
   ∀ (s : Bool) (x y : W64) (r : Bool), Canon s x → Canon s y →
     (div64 s x y r).map toBV = specBin s (if r then .rem else .quo) (toBV x) (toBV y)
-
-def shift64_correct_full : Prop :=
-  ∀ (s : Bool) (op : ShOp) (x : W64) (n : Nat), Canon s x →
-    toBV (scheme64Shift s op x n) = specShift s op (toBV x) n
 
 end GV.Props.C06
